@@ -321,7 +321,7 @@ var propC14 = &modelProp{
 	nt: func(e *Env) bool {
 		return e.flags["isolation-deep-shape"] > 0 && e.flags["isolation-mutated-caller-object"] > 0
 	},
-	rule: "documents with generated shapes (nil / empty / non-empty slices and maps, pointer chains *T and **T, slices of pointers incl. nil elements, maps of slices of pointers, interface{} holding nil/scalars/maps/slices, empty slices with spare capacity, arrays of scalars, nested structs by value and pointer), cache and async on and off. After every accepted InsertOrUpdate the caller's object is mutated through reflection at every reachable location; after every op each stored object is read twice (address sets of all reachable pointers/slices/maps must be disjoint), the first copy is mutated everywhere, a third read must equal the canonical JSON recorded at store time and share nothing; the same for objects returned by All and Search.Collect, also when they are the very first reads of a freshly opened (cold) handle; all read paths are compared with the model after every op; with the cache on a second handle reads every object from its file and the cached read must equal it. TestC14Deep repeats the store/mutate/read protocol on a second type whose containers are nested directly inside containers ([][]int, []map, map of maps, map of pointers incl. nil entries, *[]T, []*[]T, [][][]string, zero values held by interface{} slots, arrays of pointers / slices / maps / structs with pointers) with cache and async on and off, and finally reads every object through a cold second handle (what reached the file must be what was stored, not what the caller turned it into). Non-trivial: a stored shape with a non-nil pointer or non-empty container at depth >= 2 and >= 1 mutated location in a caller object. Distinct by program hash.",
+	rule: "documents with generated shapes (nil / empty / non-empty slices and maps, pointer chains *T and **T, slices of pointers incl. nil elements, maps of slices of pointers, interface{} holding nil/scalars/maps/slices, empty slices with spare capacity, arrays of scalars, nested structs by value and pointer), cache and async on and off. After every accepted InsertOrUpdate the caller's object is mutated through reflection at every reachable location; after every op each stored object is read twice (address sets of all reachable pointers/slices/maps must be disjoint), the first copy is mutated everywhere, a third read must equal the canonical JSON recorded at store time and share nothing; the same for objects returned by All and Search.Collect, also when they are the very first reads of a freshly opened (cold) handle; all read paths are compared with the model after every op; with the cache on a second handle reads every object from its file and the cached read must equal it. TestC14Deep repeats the store/mutate/read protocol on a second type whose containers are nested directly inside containers ([][]int, []map, map of maps, map of pointers incl. nil entries, *[]T, []*[]T, [][][]string, zero values held by interface{} slots, arrays of pointers / slices / maps / structs with pointers) with cache and async on and off, and finally reads every object through a cold second handle (what reached the file must be what was stored, not what the caller turned it into). TestC14Twins stores reference-free and reference-holding struct types that share one type name (props.Twin0..2, function-local declarations, one database each) in a generated order and runs the same protocol on each: nothing the library remembers per type name may leak from one type to the other. Non-trivial: a stored shape with a non-nil pointer or non-empty container at depth >= 2 and >= 1 mutated location in a caller object. Distinct by program hash.",
 	after: func(e *Env) {
 		// cached read == round trip through the file (second handle, cold cache)
 		if e.cfg.Async != nil {
@@ -433,7 +433,7 @@ func genCfgTwin(g *G, c Config) Config {
 
 func TestC12(t *testing.T) {
 	st := statsFor("C12")
-	st.Rule = "one generated program (writes, deletes, batches, reopen, Exist/Get/Count/All after every op, well-formed queries and queries spoilt on purpose: mistyped probe, invalid pattern, unknown operator, unknown field, on empty and non-empty collections) is run under two configurations drawn independently in cache, compression, async writes, lower-case names, extension and index assignment of non-unique paths (unique and case constraints are semantics and stay equal). Oracle: the two normalised traces (outcome class of every call, result multisets by creation ordinal, counts, Exist answers, presence and class of search errors, Control once nothing is pending) are equal line by line; both runs are also compared with the model. Non-trivial: the configurations differ in cache, async or the index of a queried path, and the program queries after a write. Distinct by program hash."
+	st.Rule = "one generated program (writes, deletes, batches, reopen, Exist/Get/Count/All after every op, well-formed queries and queries spoilt on purpose: mistyped probe, invalid pattern, unknown operator, unknown field, on empty and non-empty collections) is run under two configurations drawn independently in cache, compression, async writes, lower-case names, extension and index assignment of non-unique paths (unique and case constraints are semantics and stay equal). Oracle: the two normalised traces (outcome class of every call, result multisets by creation ordinal, counts, Exist answers, presence and class of search errors, Control once nothing is pending) are equal line by line; both runs are also compared with the model. TestC12Mass runs one program on 8300-9500 small objects (caller uuids, batches of 200-2000, some updates and deletes, then Count, All, Get/Exist of the oldest, newest and a spread, searches, AssignIndex, Control after a flush) under two configurations differing in cache / async (thresholds up to 100000, timeouts up to an hour, so that thousands of writes stay pending) / compression: equal traces, equal to a map model - bounds, growth and eviction inside the library must not show. Non-trivial: the configurations differ in cache, async or the index of a queried path, and the program queries after a write. Distinct by program hash."
 	st.Assumptions = baseAssumptions()
 	prof := &Profile{
 		Property: "C12", MaxOps: pick(12, 28),
